@@ -649,6 +649,24 @@ class _StrBox:
         return format(self.s, spec)
 
 
+# ============================================================================ xml.etree.ElementTree
+
+def _etree_models():
+    from xml.etree import ElementTree as ET
+    from .pymodels import etree_model
+
+    MODELS[ET.Element] = lambda interp, args, kwargs: interp.call(etree_model.Element, args, kwargs)
+    MODELS[ET.SubElement] = lambda interp, args, kwargs: interp.call(etree_model.SubElement, args, kwargs)
+
+    def tree(interp, args, kwargs):
+        return interp.call(etree_model.ElementTree, args, kwargs)
+
+    MODELS[ET.ElementTree] = tree
+
+
+_etree_models()
+
+
 # ============================================================================ methods on symbolic values
 
 def call_sym_method(interp, recv, name, args, kwargs):
@@ -953,6 +971,18 @@ def q_sum_prefix(interp, args, kwargs):
 
 def q_count_prefix(interp, args, kwargs):
     return _prefix_fun(interp, args, True)
+
+
+def q_nat_of_str(interp, args, kwargs):
+    """SMT-LIB str.to_int: the number denoted by a non-empty string of ASCII digits, else -1."""
+    (s,) = args
+    if isinstance(s, (SOpt, SChoice)):
+        s = interp.resolve(s)
+    if isinstance(s, str):
+        return int(s) if s != '' and all(c in '0123456789' for c in s) else -1
+    if not isinstance(s, SStr):
+        raise Unsupported('nat_of_str of a non-string')
+    return wrap(z3.StrToInt(s.t))
 
 
 def m_is_opaque(interp, args, kwargs):
